@@ -210,29 +210,7 @@ def gridSpanStep (isFr : List Bool) (span : Nat) (st : Option (Nat × List (List
 def gridSpanPass (isFr : List Bool) (span : Nat) (order : List GridItem) : Option (List (List Nat)) :=
   (rangeFold (gridSpanStep isFr span) (some (0, isFr.map (fun _ => []))) order).map (·.2)
 
-/-! ## Site text/quotes.go:141 — GetLangQuotes
-
-```go
-if quotes, ok := langQuotes[lang]; ok { return quotes[0], quotes[1] }
-// Revert to find long names before short ones
-for key, value := range langQuotes {
-    if key != "" && strings.HasPrefix(lang, key) { return value[0], value[1] }
-}
-return langQuotes[""][0], langQuotes[""][1]
-```
-The first key (in iteration order) that is a prefix wins. -/
-
-def isPrefix (p s : String) : Bool := p.toList.isPrefixOf s.toList
-
-def langQuotes {ν : Type} (exact : Option ν) (dflt : ν) (lang : String) (order : List (String × ν)) : ν :=
-  match exact with
-  | some v => v
-  | none =>
-    match order.find? (fun e => e.1 != "" && isPrefix e.1 lang) with
-    | some e => e.2
-    | none => dflt
-
-/-! ## The repair proposed for the order-dependent sites: iterate in a canonical order
+/-! ## The repair of the order-dependent sites: iterate in a canonical order
 
 `for _, e := range sortedEntries(m)`: insertion sort by a total order on the entries (anchor
 name, document order of the box, length-then-name of the language key). -/
@@ -259,5 +237,49 @@ def resolveLinks {π ρ : Type} (pageAnchorOrders : List (List (String × π))) 
     List (List (Link ρ)) × List (List (String × π)) :=
   let r := resolveAnchorsSorted [] pageAnchorOrders
   (pageLinks.map (fun ls => ls.filter (keepLink r.2)), r.1)
+
+/-! ## Site text/quotes.go:136 — GetLangQuotes
+
+Current code (after fix 6df2af4 "the quotes of a language without an exact entry were taken from
+a random matching prefix"):
+```go
+if quotes, ok := langQuotes[lang]; ok { return quotes[0], quotes[1] }
+// Find long names before short ones (the iteration order of a map is random)
+for _, key := range langQuotesKeys {
+    if key != "" && strings.HasPrefix(lang, key) { value := langQuotes[key]; return value[0], value[1] }
+}
+return langQuotes[""][0], langQuotes[""][1]
+```
+where `langQuotesKeys` = the keys of the map (ranged once, in a package-level initialiser), sorted
+by decreasing byte length, then by name.  Before the fix the loop was
+`for key, value := range langQuotes` (`langQuotesBeforeFix`): the first key IN MAP ORDER that is
+a prefix won. -/
+
+def isPrefix (p s : String) : Bool := p.toList.isPrefixOf s.toList
+
+/-- the loop body with its early return: once a value is chosen it is kept -/
+def langStep {ν : Type} (lang : String) (acc : Option ν) (e : String × ν) : Option ν :=
+  match acc with
+  | some v => some v
+  | none => if e.1 != "" && isPrefix e.1 lang then some e.2 else none
+
+/-- GetLangQuotes before fix 6df2af4 (`exact` = the result of the exact lookup) -/
+def langQuotesBeforeFix {ν : Type} (exact : Option ν) (dflt : ν) (lang : String) (order : List (String × ν)) : ν :=
+  match exact with
+  | some v => v
+  | none => (rangeFold (langStep lang) none order).getD dflt
+
+/-- `sort.Slice(keys, len(keys[i]) > len(keys[j]) || (equal && keys[i] < keys[j]))`; Go's `len` of a
+string is its length in bytes -/
+def byLenName {ν : Type} (a b : String × ν) : Bool :=
+  decide (a.1.utf8ByteSize > b.1.utf8ByteSize) ||
+    (decide (a.1.utf8ByteSize = b.1.utf8ByteSize) && decide (a.1 ≤ b.1))
+
+/-- GetLangQuotes (current code); `order` = the iteration order of the map when `langQuotesKeys`
+was initialised -/
+def langQuotes {ν : Type} (exact : Option ν) (dflt : ν) (lang : String) (order : List (String × ν)) : ν :=
+  match exact with
+  | some v => v
+  | none => (sortedRangeFold byLenName (langStep lang) none order).getD dflt
 
 end WR.C15
